@@ -118,11 +118,6 @@ def expectedContention (cyc : CycFn) (d : ContDoc) : Profile :=
   finish (contHeader st) ss ss (tailMappings d.map)
 
 /-! ### parser (mirrors `parseContention`, `parseContentionSample`) -/
-/-- `strings.SplitN(line, "=", 2)` when there is a `=` -/
-def splitEq : Str → Option (Str × Str)
-  | [] => none
-  | b :: s => if b.toNat == 61 then some ([], s) else (splitEq s).map (fun (k, v) => (b :: k, v))
-
 def contKeyOf (k : Str) : Option ContKey :=
   if k == asc "cycles/second" then some .cyclesPerSecond
   else if k == asc "sampling period" then some .samplingPeriod
